@@ -14,7 +14,7 @@ import impl
 import srcmod
 
 ID = "C10"
-THEOREMS = ["follow_name", "follow_const", "follow_lambda", "fillLoop_complete"]
+THEOREMS = ["streamOp_untyped_identity", "follow_untyped", "methodCall_untyped", "follow_name", "follow_const", "follow_lambda", "fillLoop_complete"]
 RULE = (
     "single-parameter lambdas over names (pool includes value, id, attr, ctx, lineno, elts, args, func, keys, body, "
     "slice), attributes, calls with positional / keyword / starred arguments, subscripts (constant, variable, negative, "
@@ -25,11 +25,20 @@ RULE = (
     "Where; non-trivial = at least 4 AST nodes; distinct = distinct (operator, source)"
 )
 EXPLANATION = (
-    "Theorem: in progress (untyped_identity). Correspondence: ObjectStream.Select/SelectMany/Where on an untyped "
-    "dataset vs the compiled Lean streamOp with the empty class model. Oracle: an independent reference in Python of "
-    "the five designed refusals (mini type inference over the documented rules); where it predicts no refusal the "
-    "emitted lambda must be structurally identical to the input and no exception may occur; where it predicts one the "
-    "exception must be ValueError; anything else (KeyError, TypeError, AttributeError ...) is a violation."
+    "Main theorem streamOp_untyped_identity (Props/C10Full.lean, from follow_untyped: induction over the fuel and every "
+    "clause of the type follower): for EVERY class model, if the stream's item type is untyped (Any, a builtin scalar, a "
+    "callable, or the dataclass of a dictionary literal over such types) and the lambda calls no registered function by "
+    "name (abs / len get their defaults filled in: C07), then whenever Select / SelectMany / Where accept the lambda they "
+    "emit exactly the lambda they were given and record no MetaData or callback; the type reported for every "
+    "sub-expression is again untyped, untyped receivers have no methods and are not iterable (methodCall_untyped), and "
+    "immediately called lambdas are followed with untyped parameter types. The hypotheses are evaluated on every generated "
+    "case (driver op untypedHyp) and where they hold the identity is demanded of the IMPLEMENTATION. Correspondence: "
+    "ObjectStream.Select/SelectMany/Where on an untyped dataset vs the compiled Lean streamOp with the empty class model. "
+    "Oracle: an independent reference in Python of the five designed refusals (mini type inference over the documented "
+    "rules); where it predicts no refusal the emitted lambda must be structurally identical to the input and no exception "
+    "may occur; where it predicts one the exception must be ValueError; anything else (KeyError, TypeError, "
+    "AttributeError ...) is a violation. PARTIAL: that the refusals are exactly the five designed ones is the oracle's "
+    "claim, not a theorem."
 )
 
 MODEL_UNTYPED = (
@@ -291,6 +300,17 @@ def check_cases(ctx, cases):
         reqs.append(("streamOp", [MODEL_UNTYPED, op, "any", lam_enc]))
         keep.append((op, src, how, got))
     res = ctx.driver.batch(reqs)
+    # hypotheses of the theorem streamOp_untyped_identity, evaluated on every case; where they hold the implementation
+    # (not only the model) must emit the lambda it was given or refuse
+    hyp = ctx.driver.batch([("untypedHyp", [r[1][0], r[1][2], r[1][3]]) for r in reqs])
+    for (op, src, how, got), h in zip(keep, hyp):
+        if tuple(h) == ("ok", "true"):
+            ctx.dist["hypotheses of streamOp_untyped_identity hold"] += 1
+            if got[0] == "ok" and got[1] != enc(parse_expr(src)):
+                ctx.violate({"op": op, "src": src, "how": how, "emitted": got[1][:300]},
+                            "the hypotheses of the identity theorem hold but the implementation emitted a different lambda")
+        else:
+            ctx.dist["hypotheses of streamOp_untyped_identity do not hold"] += 1
     for (op, src, how, got), (st, payload) in zip(keep, res):
         if got[0] == "ok":
             from sexpr import parse as sparse, render
